@@ -5,7 +5,8 @@ package main
 //
 // A "world" is a script (the replay format, one step per line):
 //
-//	par <0|1>                                   server built with (0) / without (1) gluon.WithDisableParallelism
+//	par <0|1|2>                                 server built with (0) / without (1) gluon.WithDisableParallelism; 2: the whole
+//	                                            script is run on both servers and the answers are compared search by search
 //	msg <flags|-> <unix>/<off> <lit> <hdr> <body> <sent>
 //	                                            APPEND by the writer W with that INTERNALDATE; lit/body hex, hdr = name=value,…
 //	                                            (hex; the fields and their unfolded values as generated), sent = x | <unix>/<off>
@@ -17,6 +18,12 @@ package main
 //	search <seq|uid> <cs> <dectab> <keys> <seg|seg|…>
 //	                                            one SEARCH by O: charset lookup outcome, decoder table, key tree (model
 //	                                            encoding) and the wire text (hex segments, each but the last ends in {n}CRLF)
+//
+//	ident <seq|uid> <day>                       three searches by O: ON d | NOT BEFORE d BEFORE d+1 | SINCE d BEFORE d+1, each judged
+//	                                            like a `search` line, and the three answers together by judge-c15-dayident
+//
+// Directed scenarios (harness/o_search_directed.go): internal dates / Date headers on and around midnight in several
+// zones with keys derived from them; large mailboxes (sizes coprime to any worker count) on the parallel server.
 //
 // O's view is what O itself reports (FETCH 1:* (UID FLAGS), asked twice so that pending updates are flushed, and once
 // more at the end: a world whose view moved is discarded). With `hold`/`barrier` after an expunge by W the view still
@@ -261,8 +268,18 @@ type c15SearchRun struct {
 	answer string // verdict of the Lean judge
 }
 
+// c15Ident: one `ident` line = the indices of its three searches in c15World.searches
+type c15Ident struct {
+	line       string
+	mode       string
+	day        int64
+	on, nb, sb int
+	answer     string
+}
+
 type c15World struct {
 	lines        []string
+	idents       []*c15Ident
 	searches     []*c15SearchRun
 	problems     []string // construction mismatches (harness or server disagreeing with what was generated)
 	unstable     bool
@@ -492,6 +509,38 @@ func runC15World(sys *Sys, mbox string, lines []string) (*c15World, error) {
 	}
 	mode := "none"
 	searching := false
+	// before the first search: apply what is queued (barrier), take O's view, see which of its messages are gone
+	startSearching := func() error {
+		if searching {
+			return nil
+		}
+		searching = true
+		if mode == "barrier" {
+			if err := sys.Barrier(); err != nil {
+				return err
+			}
+		}
+		if err := x.settle(); err != nil {
+			return err
+		}
+		x.world.viewLen = len(x.view)
+		// which messages of O's view are gone from the mailbox (W's view is current)
+		wv, rep := x.w.FetchAll()
+		if rep.Err != nil {
+			return rep.Err
+		}
+		present := map[int]bool{}
+		for _, m := range wv {
+			present[m.UID] = true
+		}
+		for _, v := range x.view {
+			if !present[v.UID] {
+				x.gone[v.UID] = true
+			}
+		}
+		x.world.goneInView = len(x.gone)
+		return nil
+	}
 	for _, line := range lines {
 		f := strings.Fields(line)
 		if len(f) == 0 || strings.HasPrefix(line, "#") {
@@ -576,37 +625,36 @@ func runC15World(sys *Sys, mbox string, lines []string) (*c15World, error) {
 			if x.o == nil {
 				return x.world, fmt.Errorf("search before observe")
 			}
-			if !searching {
-				searching = true
-				if mode == "barrier" {
-					if err := sys.Barrier(); err != nil {
-						return x.world, err
-					}
-				}
-				if err := x.settle(); err != nil {
-					return x.world, err
-				}
-				x.world.viewLen = len(x.view)
-				// which messages of O's view are gone from the mailbox (W's view is current)
-				wv, rep := x.w.FetchAll()
-				if rep.Err != nil {
-					return x.world, rep.Err
-				}
-				present := map[int]bool{}
-				for _, m := range wv {
-					present[m.UID] = true
-				}
-				for _, v := range x.view {
-					if !present[v.UID] {
-						x.gone[v.UID] = true
-					}
-				}
-				x.world.goneInView = len(x.gone)
+			if err := startSearching(); err != nil {
+				return x.world, err
 			}
 			if err := x.search(f, line); err != nil {
 				// session lost (panic): nothing more can be asked in this world
 				return x.world, nil
 			}
+		case "ident":
+			if x.o == nil || len(f) != 3 {
+				return x.world, fmt.Errorf("bad ident line")
+			}
+			if err := startSearching(); err != nil {
+				return x.world, err
+			}
+			day, _ := strconv.ParseInt(f[2], 10, 64)
+			id := &c15Ident{line: line, mode: f[1], day: day}
+			for i, sl := range c15IdentSearches(f[1], day) {
+				if err := x.search(strings.Fields(sl), sl); err != nil {
+					return x.world, nil
+				}
+				switch i {
+				case 0:
+					id.on = len(x.world.searches) - 1
+				case 1:
+					id.nb = len(x.world.searches) - 1
+				default:
+					id.sb = len(x.world.searches) - 1
+				}
+			}
+			x.world.idents = append(x.world.idents, id)
 		default:
 			return x.world, fmt.Errorf("bad script line %q", line)
 		}
@@ -656,9 +704,28 @@ func (g *c15Gen) time() c15Time {
 	if g.zones {
 		off = Pick(g.r, c15Zones)
 	}
+	switch g.r.Intn(8) {
+	case 0:
+		// on or next to a day boundary of the instant (midnight UTC, whatever the zone it is written in)
+		return c15Time{Unix: c15Base + day*86400 + Pick(g.r, c15Edge), Off: off}
+	case 1:
+		// the wall clock of the zone reads midnight (or a second before / after)
+		return c15Time{Unix: c15Base + day*86400 + Pick(g.r, c15Edge) - off, Off: off}
+	}
 	// the wall clock reads day/h:mm:ss in the zone
 	local := c15Base + day*86400 + h*3600 + int64(g.r.Intn(3600))
 	return c15Time{Unix: local - off, Off: off}
+}
+
+// seconds relative to a day boundary
+var c15Edge = []int64{-1, 0, 0, 1}
+
+func c15FloorDay(sec int64) int64 {
+	d := sec / 86400
+	if sec%86400 < 0 {
+		d--
+	}
+	return d
 }
 
 func c15CaseMix(r *Rng, s string) string {
@@ -875,6 +942,20 @@ func (k *c15KeyGen) strKey(name string) {
 func (k *c15KeyGen) dayKey(name string) {
 	r := k.r
 	day := int64(c15Base/86400) + int64(r.Range(-1, 10))
+	if len(k.g.msgs) > 0 && r.Chance(3, 5) {
+		// the day of some message (as the instant names it in UTC, or as its own zone names it), the day before, the day after
+		m := Pick(r, k.g.msgs)
+		t := m.Date
+		if strings.HasPrefix(name, "sent") && m.Sent != nil {
+			t = *m.Sent
+		}
+		day = c15FloorDay(t.Unix)
+		if r.Bool() {
+			day = c15FloorDay(t.Unix + t.Off)
+		}
+		day += Pick(r, []int64{-1, 0, 0, 1})
+		k.stats["daykey.from-message"]++
+	}
 	t := time.Unix(day*86400, 0).UTC()
 	txt := t.Format("2-Jan-2006")
 	if r.Bool() {
@@ -1248,6 +1329,29 @@ func c15Witnesses() []c15Witness {
 
 var c15ReClasses = regexp.MustCompile(`classes=(\S+)`)
 
+var c15ReNumList = regexp.MustCompile(`\d+(,\d+){12,}`)
+
+// c15Short: long number lists of an answer written with runs (1,2,3,4,7 -> 1..4,7), for reports
+func c15Short(s string) string {
+	return c15ReNumList.ReplaceAllStringFunc(s, func(l string) string {
+		var out []string
+		nums := strings.Split(l, ",")
+		for i := 0; i < len(nums); {
+			j := i
+			for j+1 < len(nums) && atoi(nums[j+1]) == atoi(nums[j])+1 {
+				j++
+			}
+			if j > i+1 {
+				out = append(out, nums[i]+".."+nums[j])
+			} else {
+				out = append(out, nums[i:j+1]...)
+			}
+			i = j + 1
+		}
+		return strings.Join(out, ",")
+	})
+}
+
 func runC15SearchOracle(args []string) int {
 	fs := flag.NewFlagSet("c15search", flag.ExitOnError)
 	seed := fs.Uint64("seed", 1, "")
@@ -1299,6 +1403,7 @@ func runC15SearchOracle(args []string) int {
 	// one report per deviation class: a combination of classes is reported only if one of its judged classes is new
 	reported := map[string]int{}
 	unjudged := map[string]bool{"uid-star-above": true, "seq-beyond-count": true}
+	var reportIdent *c15Ident // set while an `ident` line is reported: only that one is kept in the replay
 	report := func(w *c15World, s *c15SearchRun, kind string, note string) {
 		fresh := false
 		for _, c := range strings.Split(kind, ",") {
@@ -1316,10 +1421,16 @@ func runC15SearchOracle(args []string) int {
 		var keep []string
 		keep = append(keep, "oracle c15search")
 		for _, l := range w.lines {
-			if strings.HasPrefix(l, "search ") || strings.HasPrefix(l, "oracle") || strings.HasPrefix(l, "#") || strings.TrimSpace(l) == "" {
+			if strings.HasPrefix(l, "search ") || strings.HasPrefix(l, "ident ") || strings.HasPrefix(l, "oracle") || strings.HasPrefix(l, "#") || strings.TrimSpace(l) == "" {
 				continue
 			}
 			keep = append(keep, l)
+		}
+		if reportIdent != nil {
+			keep = append(keep, reportIdent.line, "# judge:   "+reportIdent.answer)
+			for _, i := range []int{reportIdent.on, reportIdent.nb, reportIdent.sb} {
+				keep = append(keep, fmt.Sprintf("# command: %s -> server %s", w.searches[i].wire, w.searches[i].impl))
+			}
 		}
 		if nm := len(w.msgLits); nm > 0 && nm <= 4 {
 			for i, l := range w.msgLits {
@@ -1328,7 +1439,7 @@ func runC15SearchOracle(args []string) int {
 		}
 		if s != nil {
 			keep = append(keep, s.line)
-			keep = append(keep, fmt.Sprintf("# command: %s", s.wire), fmt.Sprintf("# server:  %s", s.impl), fmt.Sprintf("# judge:   %s", s.answer))
+			keep = append(keep, fmt.Sprintf("# command: %s", s.wire), fmt.Sprintf("# server:  %s", c15Short(s.impl)), fmt.Sprintf("# judge:   %s", c15Short(s.answer)))
 		}
 		keep = append(keep, "# "+note, "# replay: ./check C15 --replay <this file>")
 		text := strings.Join(keep, "\n") + "\n"
@@ -1339,23 +1450,18 @@ func runC15SearchOracle(args []string) int {
 		_ = os.WriteFile(path, []byte(text), 0o644)
 		desc := "C15: " + note
 		if s != nil {
-			desc = fmt.Sprintf("C15: %s -> server %s; judge: %s (%s)", s.wire, s.impl, s.answer, note)
+			desc = fmt.Sprintf("C15: %s -> server %s; judge: %s (%s)", s.wire, c15Short(s.impl), c15Short(s.answer), note)
 		}
 		res.Violations = append(res.Violations, OracleViol{Desc: desc, Replay: path})
 	}
-	// runs a script, judges it, books the verdicts; expect = required verdict prefix of every search (witnesses)
-	runScript := func(lines []string, expect string, label string) {
-		par := 1
-		for _, l := range lines {
-			if strings.HasPrefix(l, "par ") {
-				par = atoi(strings.Fields(l)[1])
-			}
-		}
+	// runs a script on one server, judges it, books the verdicts; expect = required verdict prefix of every search
+	// (witnesses). Returns the judged world (nil when it could not be run or judged, or its view moved).
+	runOn := func(par int, lines []string, expect string, label string) *c15World {
 		sys, err := server(par)
 		if err != nil {
 			res.Stats["setup-failed"]++
 			fmt.Fprintln(os.Stderr, "server:", err)
-			return
+			return nil
 		}
 		mboxN++
 		w, err := runC15World(sys, fmt.Sprintf("w%d", mboxN), lines)
@@ -1366,10 +1472,13 @@ func runC15SearchOracle(args []string) int {
 		if err != nil {
 			res.Stats["world-error"]++
 			report(w, nil, "world-error", "world could not be built or run: "+err.Error())
-			return
+			return nil
 		}
 		res.Stats["worlds"]++
 		res.Stats[fmt.Sprintf("worlds.par%d", par)]++
+		if w.viewLen >= 128 {
+			res.Stats[fmt.Sprintf("worlds.par%d.view>=128", par)]++
+		}
 		if w.goneInView > 0 {
 			res.Stats["worlds.view-holds-messages-expunged-elsewhere"]++
 			res.Stats["answers.naming-a-message-expunged-elsewhere"] += w.goneAnswered
@@ -1380,20 +1489,26 @@ func runC15SearchOracle(args []string) int {
 		}
 		if w.unstable {
 			res.Stats["worlds.unstable-view-discarded"]++
-			return
+			return nil
 		}
 		var jl []string
 		for _, s := range w.searches {
 			jl = append(jl, s.judge+" => "+s.impl)
 		}
 		if len(jl) == 0 {
-			return
+			return w
+		}
+		// the day identities: the three answers of an `ident` line, judged together
+		for _, id := range w.idents {
+			jf := strings.Fields(w.searches[id.on].judge)
+			jl = append(jl, fmt.Sprintf("judge-c15-dayident %s %s %s %d %s %s %s", id.mode, jf[3], jf[4], id.day,
+				w.searches[id.on].impl, w.searches[id.nb].impl, w.searches[id.sb].impl))
 		}
 		ans, err := leanJudge(jl)
 		if err != nil || len(ans) != len(jl) {
 			res.Stats["judge-failed"]++
 			report(w, nil, "judge-failed", fmt.Sprintf("Lean judge failed: %v (%d answers for %d lines)", err, len(ans), len(jl)))
-			return
+			return nil
 		}
 		for i, s := range w.searches {
 			s.answer = ans[i]
@@ -1436,6 +1551,52 @@ func runC15SearchOracle(args []string) int {
 				report(w, s, "witness-"+label, "witness of Theorems/C15.lean no longer reproduces: expected "+expect)
 			}
 		}
+		for i, id := range w.idents {
+			id.answer = ans[len(w.searches)+i]
+			res.Evaluations++
+			f := strings.Fields(id.answer)
+			res.Stats["dayident."+strings.Join(f[:min(2, len(f))], " ")]++
+			if strings.HasPrefix(id.answer, "violation") {
+				reportIdent = id
+				report(w, nil, "day-identity", fmt.Sprintf("ON d, NOT BEFORE d BEFORE d+1 and SINCE d BEFORE d+1 (d = day %d) do not select the same messages: %s", id.day, id.answer))
+				reportIdent = nil
+			}
+		}
+		return w
+	}
+	runScript := func(lines []string, expect string, label string) {
+		par := 1
+		for _, l := range lines {
+			if strings.HasPrefix(l, "par ") {
+				par = atoi(strings.Fields(l)[1])
+			}
+		}
+		if par != 2 {
+			runOn(par, lines, expect, label)
+			return
+		}
+		// the same script with parallel evaluation and without: the answers must be the same
+		wp := runOn(1, lines, expect, label)
+		ws := runOn(0, lines, expect, label)
+		if wp == nil || ws == nil || len(wp.searches) != len(ws.searches) {
+			res.Stats["serial-parallel.not-compared"]++
+			return
+		}
+		for i, sp := range wp.searches {
+			ss := ws.searches[i]
+			if !c15Comparable(sp.line) {
+				res.Stats["serial-parallel.search-not-comparable"]++
+				continue
+			}
+			res.Evaluations++
+			if sp.impl == ss.impl {
+				res.Stats["serial-parallel.same-answer"]++
+				continue
+			}
+			res.Stats["serial-parallel.DIFFERENT"]++
+			sp.answer = fmt.Sprintf("with parallel evaluation %s (%s), without %s (%s)", sp.impl, sp.answer, ss.impl, ss.answer)
+			report(wp, sp, "serial-parallel", fmt.Sprintf("the same SEARCH on the same mailbox (%d messages in the view) is answered differently with and without gluon.WithDisableParallelism", wp.viewLen))
+		}
 	}
 	if *replay != "" {
 		b, err := os.ReadFile(*replay)
@@ -1462,9 +1623,24 @@ func runC15SearchOracle(args []string) int {
 		}
 	}
 	r := NewRng(*seed)
+	// directed scenarios: day boundaries (both servers), large views on the parallel server compared with the serial one
+	dr := r.Fork()
+	for k := 0; k < 2; k++ {
+		runScript(genC15DateWorld(dr.Fork(), k%2, res.Stats), "", "")
+	}
+	sizes := []int{131, 257}
+	if *n >= 3000 {
+		sizes = append(sizes, 263, 521, 1031)
+	}
+	for _, size := range sizes {
+		runScript(genC15BigWorld(dr.Fork(), size, res.Stats), "", "")
+	}
 	worlds := (*n + *per - 1) / *per
 	for k := 0; k < worlds; k++ {
 		wr := r.Fork()
+		if k%10 == 9 {
+			runScript(genC15DateWorld(wr.Fork(), (k/10)%2, res.Stats), "", "")
+		}
 		runScript(genC15World(wr, k%2, *per, res.Stats), "", "")
 	}
 	return finish()
